@@ -17,6 +17,7 @@ import (
 	"verifharness/internal/sim"
 
 	"github.com/yorkie-team/yorkie/api/types"
+	"github.com/yorkie-team/yorkie/pkg/document"
 	"github.com/yorkie-team/yorkie/pkg/document/json"
 	"github.com/yorkie-team/yorkie/pkg/document/presence"
 	"github.com/yorkie-team/yorkie/server/backend/database"
@@ -63,6 +64,19 @@ func statusCoq(s string) string {
 	return "DNone"
 }
 
+// lifePre makes one local edit before attaching, so that every successful attach
+// stores a change and leaves the instance with a non-zero checkpoint (a detached
+// instance is then recognisable by the server, as with real clients that carry an
+// initial presence).
+func lifePre(i int) func(d *document.Document) {
+	return func(d *document.Document) {
+		_ = d.Update(func(root *json.Object, pr *presence.Presence) error {
+			root.SetInteger("init", i)
+			return nil
+		})
+	}
+}
+
 func runLifeSeq(ctx context.Context, srv *sim.Server, seqNo int, calls []lcall, res *Result) (string, []Violation) {
 	var viol []Violation
 	p, err := srv.NewProject(ctx, 0, 0)
@@ -97,8 +111,8 @@ func runLifeSeq(ctx context.Context, srv *sim.Server, seqNo int, calls []lcall, 
 				skipped = true
 				break
 			}
-			nch = 0
-			a, e := sl.c.Attach(ctx, keys[call.d], sim.AttachOpts{DisablePresence: true})
+			nch = 1
+			a, e := sl.c.Attach(ctx, keys[call.d], sim.AttachOpts{DisablePresence: true, Pre: lifePre(i)})
 			err = e
 			if e == nil {
 				if old := sl.atts[call.d]; old != nil {
@@ -123,7 +137,8 @@ func runLifeSeq(ctx context.Context, srv *sim.Server, seqNo int, calls []lcall, 
 					knownDocID[call.d] = a.DocID
 				}
 			} else {
-				a, e := sl.c.Attach(ctx, keys[call.d], sim.AttachOpts{DisablePresence: true})
+				nch = 1
+				a, e := sl.c.Attach(ctx, keys[call.d], sim.AttachOpts{DisablePresence: true, Pre: lifePre(i)})
 				err = e
 				if e == nil {
 					sl.atts[call.d] = a
